@@ -549,5 +549,21 @@ def k7(ctx, kr):
     kr.assumptions = ['toposort tie-breaks taken deterministically (order independence: C06)']
     kr.outside = ['programs other than the templates; several occurrences re-spelled at once; mixed-case spellings']
 
-KERNELS = [k1a, k1b, k2, k4, k5, k6, k7]
+# ---------------------------------------------------------------------------------------------- K8 the preprocessor does not touch comments and layout (what reaches the lexer is the text as written)
+@kernel('K8 preprocessor.transparent_for_comments')
+def k8(ctx, kr):
+    """tokenize_program lexes preprocess(source): comments and layout can only be meaning-free if preprocessing leaves them (and the code between them) alone.
+    Same kernel as the comment-text part of C05-K2."""
+    from . import C05 as K05
+    K05._CTX = ctx
+    kr.bounds = 'preprocess(source) for comment texts %s with runs of symbolic bytes over the alphabet %r: the text that reaches the lexer is the text as written' % (K05.COMMENT_TEXTS, K05.COMMENT_ALPHABET)
+    for part in par_map(K05._k2_job, [('tpl', t) for t in K05.COMMENT_TEXTS]):
+        for f in part.findings: f['role'] = f['role'].replace('C05/K2/', 'C08/K8/')
+        merge_part(kr, part)
+    P = ctx.program(['ironplc-parser', 'ironplc-dsl'])
+    kr.functions = fn_paths(P, getattr(kr, '_enc', set()))
+    kr.exhaustive = True
+    kr.outside = ['longer texts; bytes outside the alphabet; OSCAT descriptions (C05-K2)']
+
+KERNELS = [k1a, k1b, k2, k4, k5, k6, k7, k8]
 
